@@ -25,7 +25,18 @@ append = re.search(r"[Aa]ppend\w*\s.*?(?:end|END) of (\S+\.rs)", loc) or re.sear
 m = re.search(r"(?:copy|drop|place|put)\s+(?:\S*demo\S*\s+)?(?:to|into|as|at)\s+(\S+\.rs)", loc) if not append else append
 if not m:
     m = re.search(r"(\S+/tests/\S+\.rs)", loc)
-dest = m.group(1).rstrip(";,.)`") if m else None
+install_sh = sys.argv[sys.argv.index("--install") + 1] if "--install" in sys.argv else None
+_runtxt = (meta.get("demo") or {}).get("run", "") if isinstance(meta.get("demo"), dict) else ""
+if install_sh:
+    # explicit installation command (run in the worktree, {src} = the seed's directory); the crate comes from the demo's `-p`
+    _mp = re.search(r"-p\s+(\S+)", _runtxt)
+    m = None
+    append = None
+    dest = (_mp.group(1) if _mp else "unknown") + "/tests/demo.rs"
+else:
+    dest = m.group(1).rstrip(";,.)`") if m else None
+if False:
+    pass
 if dest and not dest.endswith(".rs"):
     dest += "rs"
 dest = dest.replace(wt + "/", "")
@@ -43,7 +54,7 @@ demo_cmd = f"cargo test -p {pkg} --offline --test {testname}" if not append else
 _run = meta.get("demo", {}).get("run") if isinstance(meta.get("demo"), dict) else None
 if _run and "cargo test" in _run:
     _c = _run[_run.index("cargo test"):]
-    _c = _c.split("&&")[0].strip()
+    _c = re.split(r"\s{2,}\(", _c.split("&&")[0])[0].strip()
     if "--offline" not in _c:
         _c = _c.replace("cargo test", "cargo test --offline", 1)
     pre = ""
@@ -55,6 +66,10 @@ if _run and "cargo test" in _run:
     demo_cmd = pre + _c
 
 def install_demo():
+    if install_sh:
+        r = subprocess.run(install_sh.replace("{src}", src), shell=True, cwd=wt, capture_output=True, text=True)
+        assert r.returncode == 0, r.stderr
+        return
     if append:
         open(f"{wt}/{dest}", "a").write("\n" + open(f"{src}/{demo_file}").read())
     else:
@@ -66,7 +81,8 @@ def sh(cmd):
     return p.returncode, p.stdout + p.stderr
 
 def tests(out):
-    return sorted(set(re.findall(r"^test (\S+) \.\.\. (ok|FAILED)", out, re.M)))
+    # can_store_after_restart is not in the pinned suite (BASELINE always_fail: it depends on what else uses /tmp)
+    return sorted(t for t in set(re.findall(r"^test (\S+) \.\.\. (ok|FAILED)", out, re.M)) if "can_store_after_restart" not in t[0])
 
 def clean():
     sh("git checkout -- . && git clean -fdq -e target")
@@ -99,7 +115,7 @@ if ok:
     shutil.copy(f"{src}/patch.diff", out_dir)
     shutil.copy(f"{src}/{demo_file}", out_dir)
     meta2 = {"id": sid, "breaks_property": prop, "summary": meta.get("summary"), "needs_to_manifest": meta.get("needs_to_manifest"),
-             "files_changed": meta.get("files_changed"), "demo": {"file": demo_file, "install": ("append to the end of " if append else "copy to ") + dest, "run": demo_cmd},
+             "files_changed": meta.get("files_changed"), "demo": {"file": demo_file, "install": (install_sh.replace("{src}/", "") + "  (run at the repository root)") if install_sh else (("append to the end of " if append else "copy to ") + dest), "run": demo_cmd},
              "confirmed_by_builder": {k: v for k, v in res.items()},
              "what_was_run": [f"(scratch worktree {wt}) {demo_cmd}  [without change: pass]",
                               f"git apply patch.diff; cargo check -p {pkg} --offline; cargo test -p {pkg} --offline --lib  [same results as without the change]",
